@@ -428,12 +428,14 @@ fn check_refinement(table: &BuiltHuffmanTable, ac: &[i16]) {
         assert!(false, "[C17] exactly the bit fields of T.81 Figure G.7 are written");
         return;
     };
+    // (no kani::assume here: this function is called several times in one harness)
     let k: usize = kani::any();
-    kani::assume(k < total);
-    assert!(bit_of_bytes(&raw, k) == want.bit(k), "[C17] written bits == Encode_EOBRUN / R-ZZ code / sign / correction bits in the order of Figure G.7");
-    kani::cover!(e == 32766);
+    if k < total {
+        assert!(bit_of_bytes(&raw, k) == want.bit(k), "[C17] written bits == Encode_EOBRUN / R-ZZ code / sign / correction bits in the order of Figure G.7");
+    }
+    kani::cover!(e == 32766 && (total > 0 || ac.is_empty()));
     kani::cover!(has_prior && plen == 10);
-    kani::cover!(e == 0);
+    kani::cover!((e == 0 && k + 1 == total) || ac.is_empty());
 }
 
 // ------------------------------------------------------------------------------------------------
@@ -462,9 +464,8 @@ fn check_first_all_zero(table: &BuiltHuffmanTable, zeros: &[i16]) {
         assert!(false, "[C17] nothing is written unless the run is flushed; a flushed run is EOB14 + 14 bits");
         return;
     };
-    if flushed {
-        let k: usize = kani::any();
-        kani::assume(k < total);
+    let k: usize = kani::any();
+    if flushed && k < total {
         let want = if k < CODE_LEN { bit_of_value(14, CODE_LEN, k) } else { 1 };
         assert!(bit_of_bytes(&raw, k) == want, "[C17] run 32767 = EOB14 code followed by the 14 low-order bits of 32767 (all ones)");
     }
@@ -483,6 +484,7 @@ fn progressive_first_eobrun_contract() {
     let table = table_progressive();
     check_first_all_zero(&table, &[]);
     check_first_all_zero(&table, &[0, 0, 0]);
+    kani::cover!(); // every call above returns (no vacuous path cut)
 }
 
 // ------------------------------------------------------------------------------------------------
@@ -504,6 +506,7 @@ fn progressive_refinement_eob_contract() {
     check_refinement(&table, &[3, 0]);
     check_refinement(&table, &[0, -3]);
     check_refinement(&table, &[2, 3]);
+    kani::cover!(); // every call above returns (no vacuous path cut)
 }
 
 // ------------------------------------------------------------------------------------------------
@@ -525,4 +528,5 @@ fn progressive_refinement_newly_nonzero_contract() {
     check_refinement(&table, &[1, 0]);
     check_refinement(&table, &[-1, 2]);
     check_refinement(&table, &[0, 0, 1]);
+    kani::cover!(); // every call above returns (no vacuous path cut)
 }
